@@ -530,6 +530,97 @@ class FileModel:
         it.raise_exc('io.UnsupportedOperation', 'fileno')
 
 
+class AFile:
+    """Binary file with SYMBOLIC length and SYMBOLIC position: content = Array Int -> Int, 0 <= length, 0 <= pos.
+    read(n) returns the view content[pos : pos+min(n, max(0, length-pos))] and advances pos by its length;
+    seek as io.BytesIO (whence 0: negative -> ValueError; 1/2: clamped at 0)."""
+
+    def __init__(self, arr, length, pos):
+        self.arr = arr
+        self.length = length
+        self.pos = pos
+        self.closed = False
+        self.seeks = 0
+
+    def _pyvc_getattr(self, it, name):
+        if name in ('read', 'seek', 'tell', 'close'):
+            return Builtin('afile.' + name, getattr(self, 'm_' + name), wants_interp=True)
+        if name == 'mode':
+            return 'rb'
+        raise Unsupported('file attribute %s' % name)
+
+    def m_read(self, it, n=-1):
+        avail = z3.If(self.length - self.pos > 0, self.length - self.pos, 0)
+        if n is None:
+            k = avail
+        else:
+            n = sx.lift_int(n)
+            k = z3.If(n < 0, avail, z3.If(n < avail, n, avail))
+        k = z3.simplify(k)
+        data = V.ABytes(self.arr, self.pos, k)
+        self.pos = z3.simplify(self.pos + k)
+        return data
+
+    def m_seek(self, it, off, whence=0):
+        self.seeks += 1
+        if is_sym(whence):
+            raise Unsupported('symbolic whence')
+        off = sx.lift_int(off)
+        if whence == 0:
+            if it.branch(off < 0):
+                it.raise_exc('ValueError', 'negative seek value')
+            self.pos = off
+        elif whence == 1:
+            np = self.pos + off
+            self.pos = z3.If(np < 0, 0, np)
+        elif whence == 2:
+            np = self.length + off
+            self.pos = z3.If(np < 0, 0, np)
+        else:
+            it.raise_exc('ValueError', 'invalid whence')
+        self.pos = z3.simplify(self.pos)
+        return self.pos
+
+    def m_tell(self, it):
+        return self.pos
+
+    def m_close(self, it):
+        self.closed = True
+
+
+class AOutFile:
+    """Output file with a symbolic position: every write is logged as (position, data) and advances the position."""
+
+    def __init__(self, pos):
+        self.pos = pos
+        self.log = []
+
+    def _pyvc_getattr(self, it, name):
+        if name in ('write', 'seek', 'tell'):
+            return Builtin('aout.' + name, getattr(self, 'm_' + name), wants_interp=True)
+        if name == 'mode':
+            return 'wb'
+        raise Unsupported('file attribute %s' % name)
+
+    def m_write(self, it, data):
+        n = sx.Len(data)
+        self.log.append((self.pos, data))
+        self.pos = self.pos + n
+        return n
+
+    def m_seek(self, it, off, whence=0):
+        if whence == 0:
+            self.pos = off
+        elif whence == 1:
+            self.pos = self.pos + off
+        else:
+            raise Unsupported('seek from end on the output model')
+        return self.pos
+
+    def m_tell(self, it):
+        return self.pos
+
+
 # ----------------------------------------------------------------------------
 # attribute access on native values
 # ----------------------------------------------------------------------------
@@ -1170,8 +1261,35 @@ def b_super(it, *a):
     raise Unsupported('super()')
 
 
+class MemView:
+    """memoryview(b).cast('B') over a mutable byte buffer: same storage"""
+
+    def __init__(self, buf):
+        self.buf = buf
+
+    def _pyvc_getattr(self, it, name):
+        if name == 'cast':
+            return Builtin('memoryview.cast', lambda fmt: self if fmt == 'B' else (_ for _ in ()).throw(Unsupported('memoryview.cast(%r)' % fmt)))
+        raise Unsupported('memoryview.%s' % name)
+
+    def _pyvc_len(self, it):
+        return len(self.buf)
+
+    def _pyvc_setitem(self, it, idx, v):
+        it.store_subscript(self.buf, idx, v, None, Frame0)
+
+    def _pyvc_getitem(self, it, idx, node, frame):
+        return it.subscript(self.buf, idx, node, frame)
+
+
 def b_memoryview(it, x):
-    return x
+    if isinstance(x, SBytes) and x.mutable:
+        return MemView(x)
+    if isinstance(x, bytearray):
+        return MemView(x)
+    if V.is_bytes(x):
+        return MemView(x)
+    it.raise_exc('TypeError', 'memoryview: a bytes-like object is required')
 
 
 # ----------------------------------------------------------------------------
